@@ -204,3 +204,13 @@ package fstree
 //@   requires [buffer_of_two_header_lengths] len(buf) >= 40960
 //@   loop 1 invariant 0 <= offset && offset <= n + 38 && 0 <= n && n <= len(buf) && !entryMatched(0)
 //@   ensures [stream_of_a_combined_entry_ends_with_the_entry] err == nil && entryMatched(0) ==> isType(res1, limitedFileReader) && wide(len(res0)) + wide(as(res1, limitedFileReader).limit) == wide(l)
+
+// ---- C10 (scan of a combined file): the 38-byte entry prefix (magic, OID, length) is parsed
+// from the buffer only when all of it was read from the file: either the buffer was refilled
+// just now (the prefix then starts at 0), or the whole prefix lies below the fill mark n. A
+// prefix cut by the end of the buffered part would be completed from stale bytes.
+//@ callrule c10_entry_prefix_parsed_only_when_buffered in (*FSTree).readHeader
+//@   property C10
+//@   callee fstree.parseCombinedPrefix
+//@   pureeffect
+//@   requires [whole_prefix_below_the_fill_mark_or_buffer_just_refilled] samearray(a0, buf) && (sliceoff(a0, buf) == 0 || sliceoff(a0, buf) + combinedDataOff <= n)
